@@ -561,7 +561,7 @@ func init() {
 	fw.Register(&fw.Property{
 		ID:          "C08",
 		Level:       "exploration",
-		Rule:        "commit DAG shapes (all labelled DAGs with <=2 parents to n=5 in thorough, a seeded sample in quick; random DAGs to n=40; growing families: diamond chains, ladders, wide merges) x timestamp modes x ref sets x want sets (refs, ancestors, nested wants, the same want twice, unreachable or shallow wants; after a refusal a further round with the acceptable wants only) x 1..3 rounds of have batches incl. unknown hashes x depth 0..2; each scenario run 8 times (the finder iterates a map); oracle from harness-computed ancestor sets: acks are known haves, refused wants select nothing, listed commits are ancestors of wants, cover every ancestor not under an acknowledged commit, parents before children at first occurrence, tables exactly for commits within depth, and store reads <= 8(n+r)^2+64 counted by the store wrapper; distinct_nontrivial = distinct shapes / random graphs / family members",
+		Rule:        "commit DAG shapes (all labelled DAGs with <=2 parents to n=5 in thorough, a seeded sample in quick; random DAGs to n=40; growing families: diamond chains, ladders, wide merges) x timestamp modes x ref sets (heads, remote-tracking, tags) x want sets (refs, ancestors, nested wants, the same want twice, unreachable or shallow wants; after a refusal a further round with the acceptable wants only) x 1..3 rounds of have batches incl. unknown hashes, sometimes without a final done, tables asked before or after commits, x depth 0..2; each scenario run 8 times (the finder iterates a map); oracle from harness-computed ancestor sets: acks are known haves, refused wants select nothing, listed commits are ancestors of wants, cover every ancestor not under an acknowledged commit, parents before children at first occurrence, tables exactly for commits within depth, and store reads <= 8(n+r)^2+64 counted by the store wrapper; distinct_nontrivial = distinct shapes / random graphs / family members",
 		Assumptions: []string{"'polynomial time' is decided as a counted-reads bound on growing families, no clock", "repeated entries in the list are not judged in themselves (they count as work)", "tables of commits that lie under an acknowledged commit may or may not be selected"},
 		Gen: func(tier string, seed int64) []fw.Case {
 			l := fw.NewCaseList("C08", tier, seed)
